@@ -177,8 +177,26 @@ class Gen:
     def hole(self, ctx):
         return {"k": "hole", "ctx": ctx}
 
+    CUSTOM = {
+        "customA": [{"id": "1", "b0": 0x00, "b1": 0x1F, "lo": 0x8000, "hi": 0xFFFF, "mask": 0x8000, "ram": False, "m0": 0x80, "m1": 0x9F},
+                    {"id": "2", "b0": 0x7E, "b1": 0x7F, "lo": 0, "hi": 0xFFFF, "mask": 0x10000, "ram": True, "m0": -1, "m1": -1}],
+        "customB": [{"id": "1", "b0": 0x40, "b1": 0x5F, "lo": 0, "hi": 0xFFFF, "mask": 0x10000, "ram": False, "m0": 0xC0, "m1": 0xDF},
+                    {"id": "2", "b0": 0x7E, "b1": 0x7F, "lo": 0, "hi": 0xFFFF, "mask": 0x10000, "ram": True, "m0": -1, "m1": -1}],
+        "customC": [{"id": "1", "b0": 0x10, "b1": 0x1F, "lo": 0, "hi": 0x7FFF, "mask": 0x8000, "ram": False, "m0": -1, "m1": -1},
+                    {"id": "2", "b0": 0x7E, "b1": 0x7F, "lo": 0, "hi": 0xFFFF, "mask": 0x10000, "ram": True, "m0": -1, "m1": -1},
+                    {"id": "3", "b0": 0x20, "b1": 0x21, "lo": 0x8000, "hi": 0xFFFF, "mask": 0x8000, "ram": False, "m0": 0xA0, "m1": 0xA1}],
+    }
+
     def rom_addr(self):
         r = self.rnd
+        if self.rom in self.CUSTOM:
+            d = r.choice([x for x in self.CUSTOM[self.rom] if not x["ram"]])
+            banks = [d["b0"], d["b0"] + 1, d["b1"]] + ([d["m0"], d["m1"]] if d["m0"] != -1 else [])
+            bank = r.choice(banks)
+            off = r.choice([d["lo"], d["lo"] + 0x123, d["hi"] - 5, d["hi"] - 1, (d["lo"] + d["hi"]) // 2])
+            if bank in (d["b1"], d["m1"]) and off > d["hi"] - 0x200:
+                off = d["lo"] + 0x40      # stay inside the mapped range at the last bank
+            return (bank << 16) | off
         if self.rom == "high":
             return r.choice([0xC00000, 0xC10000, 0xC2FFF0, 0x408000, 0xD01234, 0xC1FFFC]) + r.choice([0, 0, 1, 2])
         return r.choice([0x008000, 0x018000, 0x02FFF0, 0x038000, 0x0F9000, 0x808000, 0x81FFF8, 0x00FFFA]) + r.choice([0, 0, 1, 3])
@@ -265,10 +283,15 @@ class Gen:
                 m = {"k": "macro", "n": self.fresh("m"), "ps": ps, "b": mb}
                 self.macro_defs.append(m)
                 body.append(m)
-        start = 0xC00000 if self.rom == "high" else 0x008000
-        body.append({"k": "stareq", "e": num(start + r.choice([0, 0, 0x100, 0x7FF0]))})
+        if self.rom in self.CUSTOM:
+            body = [{"k": "map", "decl": d} for d in self.CUSTOM[self.rom]] + body
+            d0 = self.CUSTOM[self.rom][0]
+            body.append({"k": "stareq", "e": num((d0["b0"] << 16) + d0["lo"] + r.choice([0, 0, 0x100]))})
+        else:
+            start = 0xC00000 if self.rom == "high" else 0x008000
+            body.append({"k": "stareq", "e": num(start + r.choice([0, 0, 0x100, 0x7FF0]))})
         body += self.stmts(0, self.size, toplevel=True)
-        prog = {"rom": self.rom, "defines": [], "body": body}
+        prog = {"rom": "low" if self.rom in self.CUSTOM else self.rom, "defines": [], "body": body}
         self.fill(prog["body"], [self.collect(prog["body"])], [])
         return prog
 
@@ -357,5 +380,5 @@ class Gen:
 
 def gen_program(seed: int, **kw) -> dict:
     rnd = random.Random(seed)
-    rom = kw.pop("rom", None) or rnd.choice(["low", "low", "high"])
+    rom = kw.pop("rom", None) or rnd.choice(["low", "low", "high", "customA", "customB", "customC"])
     return Gen(rnd, rom=rom, **kw).program()
